@@ -359,7 +359,7 @@ class Env:
             if self.units.dims(a["unit"]) != self.units.dims(b["unit"]):
                 raise Unspecified("comparison across dimensions")
             va = va * self.units.factor(a["unit"]) / self.units.factor(b["unit"])
-        if abs(va - vb) <= 1e-3 * max(abs(va), abs(vb), 1e-300):
+        if abs(va - vb) <= 1e-3 * max(abs(va), abs(vb), 1e-300) or abs(va - vb) <= ABS_BAND:
             raise Unspecified("comparison of nearly equal values")
         value = {"<": va < vb, ">": va > vb, "<=": va <= vb, ">=": va >= vb}[st["cmp"]]
         node = new_node(path, "bool")
@@ -468,6 +468,8 @@ class Env:
             node = self.nodes[path]
             if node["constant"]:
                 raise Abort("assignment to a constant node", "C14", path)
+            if typ == "str" and node["dims"] is None and isinstance(value, list):
+                raise Unspecified("array injected into a scalar string node")
             if typ in ("int", "float"):
                 value = self.convert(value, unit, node["unit"], path)
                 if typ == "int" and not all_integral(value):
@@ -477,6 +479,8 @@ class Env:
             node["has_value"] = True
             node["modified"] = True
         else:
+            if typ == "str" and not st.get("dims") and isinstance(value, list):
+                raise Unspecified("array injected into a scalar string node")
             node = new_node(path, typ, st.get("bits", ""), st.get("unsigned", False), unit,
                             st.get("dims"))
             check_dims(node, value)
